@@ -211,6 +211,24 @@ def check(run: Run, prog: Program, model: Model, tier: str) -> None:
         else:
             run.holds("W3-LIST", construct, fl.loc, f"{len(rets)} return paths: every position pinned, length props carried", nontrivial=True)
     run.floor("W3-LIST", 30)
+    # the substituted list is an EXACT element list next to the carried length props: it narrows only if the validator
+    # still reports every position past the pinned ones (a max_len that "leaves room" re-opens the list)
+    from ..visits import list_shapes
+    from ..vtable import surplus_reported
+    for name, mk in list_shapes(2):
+        if "..." in name:
+            continue
+        n = len(mk().items)
+        for ln in (("max_len",), ("min_len", "max_len")):
+            cfg = Config(("elements",) + ln, {"elements": mk}, label=f"elements={name}" + "".join("," + x for x in ln))
+            rows, _ = extract(prog, model, "Validator", "visit_list", cfg, 1)
+            okx, why = surplus_reported(rows, n)
+            c = f"Validator.visit_list {cfg.label}: pinned list stays closed"
+            if okx:
+                run.holds("W3-LIST", c, fl.loc, "positions past the pinned members are reported as extra", nontrivial=True)
+            else:
+                run.violated("W3-LIST", c, fl.loc, why,
+                             witness="schema.list(schema.int).len(1, 3) % [1] accepts [1, 'x'] although the original rejects it")
 
     # ---------------------------------------------------------------- W4 any
     fa = sub.lookup("visit_any")
